@@ -38,7 +38,9 @@ RULE = ("random operation sequences (<=40 ops quick, <=400 thorough) per object 
         "for the modelled kinds (disagreement), and the wrapped native tags with the Easy view; an assignment that raised must leave "
         "items() as it was (stated without the per-key rules). Plus a sweep: every Easy key that has a setter x every rejected value "
         "class (not a list, wrong item types, wrong list lengths, non-ASCII / unparsable / out-of-range content) x key absent | present "
-        "| present next to a prefix-related key, through set / setdefault / update. non-trivial = a step that changed the "
+        "| present next to a prefix-related key, through set / setdefault / update. Plus registry overlap: keys registered by exact name "
+        "(text, TXXX, freeform) on registry copies where an EARLIER glob also matches them, in three casings, through set / setdefault / update / pop / del: "
+        "the Easy view follows a plain dictionary and the native tags hold the frame or atom the exact registration names. non-trivial = a step that changed the "
         "mapping or raised; distinct by (kind, operation, key class, outcome class)")
 
 DATA = os.path.join(common.REPO, "tests", "data")
@@ -723,6 +725,96 @@ def rejected_sweep(ctx, drv, kname, share=1.0):
                     return
 
 
+def registered_overlap(ctx):
+    """keys an application registers by exact name while a glob registered EARLIER also matches them (the documented registry:
+    'the key may be either a string or a glob pattern'): every mapping operation on the exact key goes to ITS handlers -- the
+    Easy view follows a plain dictionary and the wrapped native tags hold the frame / atom the registration names, never the
+    glob's -- and the glob keeps serving its other keys.  Runs on subclasses with their own registry copies."""
+    from mutagen.easyid3 import EasyID3
+    from mutagen.easymp4 import EasyMP4Tags
+
+    def sub(base):
+        class E(base):
+            pass
+        for n in ("Get", "Set", "Delete", "List"):
+            setattr(E, n, dict(getattr(base, n)))
+        E.valid_keys = E.Get
+        return E
+    E3 = sub(EasyID3)
+    E3.RegisterTXXXKey("performer:special", "SPECIAL")
+    E3.RegisterTXXXKey("replaygain_special_gain", "RGSPECIAL")
+    E3.RegisterTextKey("performer:text", "TOFN")
+    E4 = sub(EasyMP4Tags)
+
+    def xg(tags, key): return [b.decode("utf-8") for b in tags["----:com.apple.iTunes:" + key.upper()]]
+    def xs(tags, key, value): tags["----:com.apple.iTunes:" + key.upper()] = [v.encode("utf-8") for v in value]
+    def xd(tags, key): del tags["----:com.apple.iTunes:" + key.upper()]
+    def xl(tags, key): return [k.split(":")[-1].lower() for k in tags.keys() if k.startswith("----:com.apple.iTunes:X-")]
+    E4.RegisterKey("x-*", xg, xs, xd, xl)
+    E4.RegisterTextKey("x-special", "\xa9spc")
+    E4.RegisterFreeformKey("x-free", "Exact Free")
+
+    def native3(o):
+        i = o._EasyID3__id3
+        return dict((hk, list(getattr(i[hk], "text", None) or [list(p) for p in getattr(i[hk], "people", [])] or ["?"])) for hk in i.keys())
+
+    def native4(o):
+        t = o._EasyMP4Tags__mp4
+        return dict((k, [x.decode("utf-8") if isinstance(x, bytes) else x for x in t[k]]) for k in t.keys())
+    plans = [
+        ("ezid3", E3, native3, [("performer:special", "TXXX:SPECIAL"), ("replaygain_special_gain", "TXXX:RGSPECIAL"), ("performer:text", "TOFN")],
+         ("performer:other", lambda nat, v: nat.get("TMCL") == [["other", x] for x in v])),
+        ("ezmp4", E4, native4, [("x-special", "\xa9spc"), ("x-free", "----:com.apple.iTunes:Exact Free")],
+         ("x-other", lambda nat, v: nat.get("----:com.apple.iTunes:X-OTHER") == v)),
+    ]
+    vals = [["a"], ["a", "b"], ["1.5 dB"], ["free text, two", "values"], "single"]
+    for kname, E, native, exact, (globkey, glob_ok) in plans:
+        for key, where in exact:
+            for casing in (key, key.upper(), key.title()):
+                for v in vals:
+                    for how in ("set", "setdefault", "update"):
+                        o = E()
+                        ref = {}
+                        want = [v] if isinstance(v, str) else list(v)
+                        d = {"runner": "c16.registered", "class": "mapping-semantics", "kind": kname, "key": casing, "value": v, "how": how}
+                        ctx.oracle_cases += 1
+                        ctx.count("registered-overlap:" + kname)
+                        ctx.case((kname, "registered", key, casing == key, how, len(want)))
+                        try:
+                            o[globkey] = ["g"]
+                            if how == "set":
+                                o[casing] = v
+                            elif how == "setdefault":
+                                o.setdefault(casing, v)
+                            else:
+                                o.update({casing: v})
+                            ref[key] = want
+                            got = (o[key], o[casing.swapcase()], key in o, casing in o, sorted(o.keys()), o.get(casing, None))
+                            exp = (want, want, True, True, sorted([key, globkey]), want)
+                            nat = native(o)
+                            if got != exp:
+                                ctx.violation("oracle", "%s: a key registered by exact name (%r) that an earlier glob also matches does not behave like a dictionary key after %s" % (kname, key, how),
+                                              dict(d, observed=repr(got)[:300], expected=repr(exp)[:300]))
+                                return
+                            if nat.get(where) != want or not glob_ok(nat, ["g"]) or len(nat) != 2:
+                                ctx.violation("oracle", "%s: wrapped native tags inconsistent with the Easy view: %r is registered for %s but the native tags are %r" % (kname, key, where, nat), d)
+                                return
+                            popped = o.pop(casing)
+                            if popped != want or key in o or where in native(o) or sorted(o.keys()) != [globkey] or not glob_ok(native(o), ["g"]):
+                                ctx.violation("oracle", "%s: pop of a key registered by exact name (%r) next to a matching glob: returned %r, left %r" % (kname, key, popped, native(o)), d)
+                                return
+                            try:
+                                del o[casing]
+                                ctx.violation("oracle", "%s: del of an absent key registered by exact name (%r) raised no KeyError" % (kname, key), d)
+                                return
+                            except KeyError:
+                                pass
+                        except Exception as e:
+                            ctx.violation("oracle", "%s: operations on a key registered by exact name (%r) next to a matching glob raised %s" % (kname, key, type(e).__name__),
+                                          dict(d, error=str(e)[:200]))
+                            return
+
+
 def vm_crosscheck(ctx, drv, n=30):
     pool = drv.vm_pool
     ctx.rng.shuffle(pool)
@@ -757,6 +849,7 @@ def run(ctx):
     CURRENT_QUIRKS = dict(QUIRKS_ON)
     drv = Driver(ctx)
     directed(ctx, drv)
+    registered_overlap(ctx)
     for kname in ("ezid3", "ezmp4"):
         rejected_sweep(ctx, drv, kname)
     for kname in ("fezid3", "fezmp4"):
@@ -781,6 +874,9 @@ def search(ctx, broken):
 
 def replay(ctx, payload):
     d = payload.get("data", {})
+    if d.get("runner") == "c16.registered":
+        registered_overlap(ctx)
+        return bool(ctx.violations)
     if payload.get("kind") != "failing-input" or "ops" not in d or d.get("kind") not in kinds():
         run(ctx)
         return bool(ctx.violations or ctx.disagreements)
